@@ -509,6 +509,7 @@ type Config struct {
 	Recover     bool   `json:"recover"`
 	Defer       bool   `json:"defer"`
 	DryRun      bool   `json:"dry_run"`
+	OptNoise    bool   `json:"opt_noise,omitempty"` // the container options are preceded by DryRun with the opposite value (the last one wins)
 	ShuffleSeed int64  `json:"shuffle_seed"`
 	PanicKind   int    `json:"panic_kind"`         // 0 struct value, 1 error value, 2 string, 3 error value wrapping a dig error
 	ValMask     uint32 `json:"val_mask,omitempty"` // universe positions realised as struct values V<i> (dynamic stubs only)
